@@ -753,11 +753,13 @@ def _do_op(op, args, rnd_state):
             desc = ("contract", contract_data(r))
         elif op == "simplify":
             r = cs[0].g.simplify(cs[0].a)
+            res_obj = r
             desc = ("list", tl_data(r))
         elif op == "elim":
             fn = cs[0].g.elim_vars_by_refining if args["refine"] else cs[0].g.elim_vars_by_relaxing
             el = [Var(x) for x in args["elim"]]
             r = fn(cs[0].a, el, args["simplify"], None)[0]
+            res_obj = r
             desc = ("list", tl_data(r))
         elif op == "optimize":
             desc = ("value", cs[0].optimize(args["expr"], args["maximize"]))
@@ -812,7 +814,19 @@ def c13_eval(p):
     g = Gen(p["seed"])
     r = g.r
     pool = []
-    for _ in range(4):
+    if p["seed"] % 4 == 0:
+        # a pool of very small contracts (no assumptions, at most one guarantee, shared and separate interfaces): the
+        # shapes on which shortcuts ("nothing to simplify", "nothing new in the union") are taken
+        one = [[{"o": 1.0, "i": -1.0}, 1.0]]
+        pool = [
+            {"in": ["i"], "out": ["o"], "a": [], "g": one},
+            {"in": ["i"], "out": ["o"], "a": [], "g": []},
+            {"in": ["i"], "out": ["o"], "a": [], "g": [[{"o": 1.0, "i": -1.0}, 1.0]]},
+            {"in": ["o"], "out": ["p"], "a": [], "g": [[{"p": 1.0, "o": -1.0}, 2.0]]},
+            {"in": ["i"], "out": ["o", "p"], "a": [[{"i": 1.0}, 5.0]], "g": [[{"o": 1.0, "i": -1.0}, 1.0], [{"p": 1.0, "i": -1.0}, 3.0]]},
+            {"in": ["j"], "out": ["q"], "a": [], "g": [[{"q": 1.0}, 4.0]]},
+        ]
+    for _ in range(4 if not pool else 1):
         w, c1, c2 = gen_pair(g)
         pool += [contract_data(c1), contract_data(c2)]
     out = {"case_key": "seq-%d" % p["seed"], "stats": {}, "nontrivial": True, "sample": None}
@@ -836,14 +850,15 @@ def c13_eval(p):
         # aliasing: mutate the result after the fact, operands must not move
         if res_obj is not None:
             try:
-                for tl in (res_obj.a, res_obj.g):
+                for tl in ((res_obj.a, res_obj.g) if hasattr(res_obj, "inputvars") else (res_obj,)):
                     for t in tl.terms:
                         for k in list(t.variables):
                             t.variables[k] += 17.0
                         t.constant += 17.0
                     tl.terms.append(tl.terms[0].copy()) if tl.terms else None
-                res_obj.inputvars.append(g.Var("zz_alias"))
-                res_obj.outputvars.append(g.Var("zz_alias2"))
+                if hasattr(res_obj, "inputvars"):
+                    res_obj.inputvars.append(g.Var("zz_alias"))
+                    res_obj.outputvars.append(g.Var("zz_alias2"))
             except Exception:
                 pass
             if [contract_data(c) for c in live] != call["contracts"]:
@@ -1035,7 +1050,7 @@ FAMILIES = {
 RULES = {
     "c09_case": "expression trees up to depth 3 over 4 variables (numbers, variables, coefficient*variable with and without '*', parenthesised sums with optional factor, absolute values with optional factor, chains of 3 sides, equalities), rendered with random spacing and number spellings; equivalence of parsed constraints and written relation decided by z3 for all real points; 15 malformed strings; parse twice",
     "c10_case": "contracts with coefficient/constant magnitudes 1e-4..1e6 (4-significant-digit decimals and arbitrary floats), opposite-term pairs with equal / negated / unrelated constants at every position; machine dict, machine file, strings, human file; meaning compared by z3 with every number rounded to 4 significant digits for the human forms",
-    "c13_case": "operation sequences (12 quick / 30 thorough) drawn from %s over a shared pool that results are fed back into; deep snapshot of operands and argument lists before/after, module tables, post-hoc mutation of results, immediate repetition, and replay of every step in a fresh interpreter" % OPS,
+    "c13_case": "operation sequences (12 quick / 30 thorough) drawn from %s over a shared pool that results are fed back into (every fourth sequence starts from a pool of very small contracts: no assumptions, at most one guarantee); deep snapshot of operands and argument lists before/after, module tables, post-hoc mutation of results, immediate repetition, and replay of every step in a fresh interpreter" % OPS,
     "c14_case": "EXHAUSTIVE: every single-field deletion and every replacement by one of %d wrong-kind values of a valid contract dictionary in machine and human representation, through from_dict / validate+from_strings and through the file reader; plus file-entry and file-top-level faults" % len(WRONG),
     "c14_shapes_case": "adversarial shapes (empty lists, single variable, unbounded LPs, more eliminated variables than context rows, cancelling terms) through elimination, simplify, refines, is_empty, optimize with every single tactic",
     "c18_case": "constraint lists over 2-4 variables with small-integer coefficients, integer values and axis limits in [-5,5]: polygons, segments, points, empty slices, missing values; compared with exact rational vertex enumeration (set equality within 1e-6, feasibility, angular order)",
